@@ -3,7 +3,7 @@
    checked model must report an out-of-range access). *)
 From Coq Require Import ZArith List Bool QArith PrimFloat.
 Import ListNotations.
-Require Import PV.Base.Ops PV.Model.Relax PV.Model.RelaxChk PV.Model.RelaxRun PV.Model.GraphAlg PV.Model.Split PV.Model.SplitChk PV.Model.Aggregate PV.Model.AggChk PV.Model.BfsChk.
+Require Import PV.Base.Ops PV.Model.Relax PV.Model.RelaxChk PV.Model.RelaxRun PV.Model.GraphAlg PV.Model.Split PV.Model.SplitChk PV.Model.Aggregate PV.Model.AggChk PV.Model.BfsChk PV.Model.MisChk.
 Open Scope Z_scope.
 
 Section Run.
@@ -56,6 +56,15 @@ Definition bfs_chk_case (c : Z * list (list Z) * Z * option (list Z)) : bool :=
   let '(n, ls, seed, expected) := c in
   match bfs_chk n (zln ls 0) (zln ls 1) seed (zln ls 2), expected with
   | Some (order, level, N), Some ex => list_eqb Z.eqb (N :: firstn (Z.to_nat N) order ++ level) ex
+  | None, None => true
+  | _, _ => false
+  end.
+
+(* maximal_independent_set_serial twin: (n, [Ap; Aj; x], [active; C; F], expected (count :: x)) *)
+Definition mis_chk_case (c : Z * list (list Z) * list Z * option (list Z)) : bool :=
+  let '(n, ls, ps, expected) := c in
+  match mis_serial_chk n (zln ls 0) (zln ls 1) (zn ps 0) (zn ps 1) (zn ps 2) (zln ls 2), expected with
+  | Some (x, N), Some ex => list_eqb Z.eqb (N :: x) ex
   | None, None => true
   | _, _ => false
   end.
